@@ -1,7 +1,11 @@
 //! Per-property checks.
 
 pub mod c06;
+pub mod c07;
+pub mod lin;
+pub mod schedprops;
 pub mod c10;
+pub mod c14;
 pub mod c16;
 pub mod crashprops;
 
@@ -132,6 +136,15 @@ pub fn run_check(prop: &str, tier: &str) -> i32 {
             let plan = crashprops::CrashPlan { crash: true, layout_tag: "C05", nest: 0, reopen_cycles: 0, sector_tear: false, layout: true };
             crashprops::crash_check(prop, s, &["C05"], plan, budget * 0.5, &mut report);
         }
+        "C07" => {
+            let bound = if thorough { 3 } else { 2 };
+            let mut progs = c07::programs(Cfg::memory(), thorough);
+            let mut disk = Cfg::persistent(24);
+            disk.cache = true;
+            progs.extend(c07::programs(disk, thorough));
+            schedprops::run_programs(progs, bound, 3000, budget, &schedprops::judge_linearizable, None, &["C07", "C20"], &mut report);
+            report.set("explanation", "deviation-bounded depth-first exploration of all schedules of each program under a controlled scheduler over real threads (one runs at a time, switches only at hook points); every complete execution's call/return history is checked by brute-force linearization against the LWW model with the two permitted refusals");
+        }
         "C10" => {
             let deep = suites::layout_suites(thorough);
             let plan = crashprops::CrashPlan { crash: false, layout_tag: "C10", nest: 0, reopen_cycles: 0, sector_tear: false, layout: true };
@@ -139,6 +152,11 @@ pub fn run_check(prop: &str, tier: &str) -> i32 {
             c10::run(&mut report);
         }
         "C06" => c06::run(tier, &mut report),
+        "C14" => {
+            c14::run(tier, &mut report);
+            let s = pick(&["mem-ttl", "mem-core", "disk-v3", "disk-v3-ttl", "focus-v3-ttl"], thorough);
+            seq_check(prop, tier, s, &["C14"], budget * 0.5, &mut report);
+        }
         "C16" => {
             // (1) cache FSM, (2) cache on/off differential over persistent SEQ suites
             c16::run_fsm(tier, budget * 0.4, &mut report);
